@@ -176,7 +176,13 @@ func propC10(c *Ctx) {
 				return false
 			}
 			if mc, ok := d.Common().Value.(*ssa.MakeClosure); ok {
-				return len(c.Calls(mc.Fn.(*ssa.Function), release, false)) > 0
+				// through the site list: the release may sit in a helper extracted later
+				for _, st := range Sites(mc.Fn.(*ssa.Function)) {
+					if st.Kind == "call" && release(st.Target) {
+						return true
+					}
+				}
+				return false
 			}
 			return release(CalleeName(d))
 		}
